@@ -6,7 +6,7 @@ import (
 	"go/types"
 	"strings"
 
-	"golang.org/x/tools/go/ssa"
+	"ikeverif/checker/xt/ssa"
 )
 
 // relSpan resolves a chain of slice expressions to (root, lo, hi) with lo/hi linear forms relative
